@@ -27,7 +27,7 @@ def generators(tier, seed):
 
 MANIFEST = dict(
     design_ref='DESIGN.md §5 C03',
-    text='TLC enumerates every Boolean formula (Polish notation) with <= 3 connectives over five leaves for three atom tables covering all 13 operator kinds, rendered with minimal and with full round/curly brackets; each is run on world W3 (all 8 truth assignments, boundary entries) and judged by Judge_Filter with three-valued Boolean evaluation (Eval!EvalP).',
+    text='TLC enumerates every Boolean formula (Polish notation) with <= 3 connectives over five leaves for three atom tables covering all 13 operator kinds, rendered with minimal and with full round/curly brackets; each is run on world W3 (all 8 truth assignments, boundary entries) and judged by Judge_Filter with three-valued Boolean evaluation (Eval!EvalP). MC_C03L adds the laws as relations between the outputs of several queries (complement, double negation, and/or, De Morgan, precedence) over atoms whose meaning Prop leaves open (text ordering, text operators on numbers, boolean ordering, operator words in other letter cases).',
     note='Trusted: TLC, Eval.tla, Lang.tla rendering. Quick: all formulas with <= 2 connectives plus 6000 sampled of the 189 120 with <= 3; thorough: all.',
     technique='TLC formula enumeration + replay + TLA+ judge')
 
